@@ -65,6 +65,9 @@ def seeds(props):
         if props and not any(c in props for c in caught):
             continue
         patch = os.path.join(ROOT, 'seeded', sid, 'patch.diff')
+        reb = os.path.join(ROOT, 'seeded', sid, 'patch.rebased.diff')
+        if os.path.exists(reb):
+            patch = reb             # the seed rebased onto a later fix
         if not os.path.exists(patch):
             continue
         d = tempfile.mkdtemp(prefix='cvxverif-seed-')
